@@ -156,10 +156,10 @@ def run(c):
     c.assumptions += ["native no-progress watchdog: 10 s without any event on workloads that normally finish in < 50 ms", "Miri explores the seeds it is given, not all schedules"]
     for cat in ("N = 1", "N >= 4", "a rendezvous of N", "a slow-task run", ">= 2 overlapping tasks"):
         c.need(cat)
-    native(c, "rel", 1500 if c.quick else 40000)
+    native(c, "rel", 1500 if c.quick else 150000)
     if c.quick:
         miri(c, [(2, 4, "instant"), (3, 3, "rendezvous"), (2, 5, "rendezvous")], 16)
     else:
         cfgs = [(n, t, k) for n in (1, 2, 3, 4) for (t, k) in ((0, "instant"), (n, "rendezvous"), (2 * n + 1, "rendezvous"), (3, "instant"))][:12]
-        miri(c, cfgs, 256)
-        native(c, "tsan", 2000)
+        miri(c, cfgs, 512)
+        native(c, "tsan", 6000)
